@@ -39,6 +39,135 @@ def signal_classes(m):
     return out
 
 
+# ---------------------------------------------------------------------------------------------
+# Role discovery: the analyses below speak about `content`, `obj`, `found_end`, ... -- the variables of today's
+# BlockBase.match.  So that a rename of a local is not mistaken for a change of behaviour, the roles are discovered from
+# how the variables are USED, and the function is analysed on a copy in which they carry the canonical names.
+# ---------------------------------------------------------------------------------------------
+def discover_roles(f):
+    """canonical role -> actual local name, from usage."""
+    import copy
+    roles = {}
+    params = set(A.param_names(f.node))
+    body = list(A.body_nodes(f.node))
+    # content: the list returned in a 1-tuple
+    for n in body:
+        if isinstance(n, ast.Return) and isinstance(n.value, ast.Tuple) and len(n.value.elts) == 1 and isinstance(n.value.elts[0], ast.Name):
+            roles["content"] = n.value.elts[0].id
+    # cls = classes[i] ; obj = cls(reader)
+    for n in body:
+        if isinstance(n, ast.Assign) and len(n.targets) == 1 and isinstance(n.targets[0], ast.Name) and isinstance(n.value, ast.Subscript) \
+                and isinstance(n.value.value, ast.Name) and isinstance(n.value.slice, ast.Name):
+            c = n.targets[0].id
+            for x in body:
+                if isinstance(x, ast.Assign) and isinstance(x.targets[0], ast.Name) and isinstance(x.value, ast.Call) \
+                        and isinstance(x.value.func, ast.Name) and x.value.func.id == c:
+                    roles.setdefault("cls", c)
+                    roles.setdefault("classes", n.value.value.id)
+                    roles.setdefault("i", n.value.slice.id)
+                    roles.setdefault("obj", x.targets[0].id)
+    content = roles.get("content")
+    # obj (generic): what is appended to content and was obtained from a call with the reader
+    if "obj" not in roles and content:
+        for n in body:
+            if isinstance(n, ast.Call) and isinstance(n.func, ast.Attribute) and n.func.attr == "append" and A.text(n.func.value) == content \
+                    and n.args and isinstance(n.args[0], ast.Name):
+                roles["obj"] = n.args[0].id
+    # found_end / had_match: booleans set True inside the matching loop
+    for lp in body:
+        if isinstance(lp, ast.While):
+            for blk in ast.walk(lp):
+                stmts = getattr(blk, "body", None)
+                for lst in (getattr(blk, "body", None), getattr(blk, "orelse", None)):
+                    if not isinstance(lst, list):
+                        continue
+                    for i, st in enumerate(lst):
+                        if isinstance(st, ast.Assign) and isinstance(st.targets[0], ast.Name) and isinstance(st.value, ast.Constant) and st.value.value is True:
+                            nxt = lst[i + 1] if i + 1 < len(lst) else None
+                            if isinstance(nxt, ast.Break):
+                                roles.setdefault("found_end", st.targets[0].id)
+                            elif st.targets[0].id not in params:
+                                roles.setdefault("had_match", st.targets[0].id)
+    # table_name: what is passed to SYMBOL_TABLES.remove / assigned from get_scope_name()
+    for n in body:
+        if isinstance(n, ast.Call) and (A.dotted(n.func) or "").endswith("SYMBOL_TABLES.remove") and n.args and isinstance(n.args[0], ast.Name):
+            roles.setdefault("table_name", n.args[0].id)
+    # start_name / end_name
+    for n in body:
+        if isinstance(n, ast.Assign):
+            tg = n.targets[0]
+            pairs = []
+            if isinstance(tg, ast.Name):
+                pairs = [(tg, n.value)]
+            elif isinstance(tg, ast.Tuple) and isinstance(n.value, ast.Tuple) and len(tg.elts) == len(n.value.elts):
+                pairs = list(zip(tg.elts, n.value.elts))
+            for t, v in pairs:
+                if isinstance(t, ast.Name) and isinstance(v, ast.Call) and isinstance(v.func, ast.Attribute):
+                    if v.func.attr == "get_start_name":
+                        roles.setdefault("start_name", t.id)
+                    if v.func.attr == "get_end_name":
+                        roles.setdefault("end_name", t.id)
+                    if v.func.attr == "get_start_label":
+                        roles.setdefault("start_label", t.id)
+    # endcls_all: second argument of the isinstance guarding found_end = True
+    fe = roles.get("found_end")
+    if fe:
+        P = A.parents(f.node)
+        for n in body:
+            if isinstance(n, ast.Assign) and isinstance(n.targets[0], ast.Name) and n.targets[0].id == fe and isinstance(n.value, ast.Constant) and n.value.value is True:
+                x = n
+                while x in P and not (isinstance(P[x], ast.If) and any(isinstance(c, ast.Call) and A.dotted(c.func) == "isinstance" for c in ast.walk(P[x].test))):
+                    x = P[x]
+                iff = P.get(x)
+                if isinstance(iff, ast.If):
+                    for c in ast.walk(iff.test):
+                        if isinstance(c, ast.Call) and A.dotted(c.func) == "isinstance" and len(c.args) == 2 and isinstance(c.args[1], ast.Name):
+                            roles.setdefault("endcls_all", c.args[1].id)
+    # comments: the local list added to the subclasses to form the class list
+    cl = roles.get("classes")
+    if cl:
+        for n in body:
+            if isinstance(n, ast.Assign) and isinstance(n.targets[0], ast.Name) and n.targets[0].id == cl and isinstance(n.value, ast.BinOp):
+                for nm in A.names_in(n.value):
+                    if nm not in params:
+                        roles.setdefault("comments", nm)
+    # start_idx: assigned len(content)
+    if content:
+        for n in body:
+            if isinstance(n, ast.Assign) and isinstance(n.targets[0], ast.Name) and isinstance(n.value, ast.Call) and A.dotted(n.value.func) == "len" \
+                    and n.value.args and A.text(n.value.args[0]) == content:
+                roles.setdefault("start_idx", n.targets[0].id)
+    return roles
+
+
+def canonical(finfo, need=()):
+    """A FuncInfo whose AST is a copy of finfo's with the discovered role variables renamed to their canonical names.
+    Raises AnalysisError when a needed role cannot be discovered."""
+    import copy
+    from sa.model import FuncInfo
+    roles = discover_roles(finfo)
+    missing = [r for r in need if r not in roles]
+    if missing:
+        raise AnalysisError("%s: cannot identify the variable(s) playing the role %s (the function changed shape)" % (finfo.qualname, missing))
+    ren = {actual: role for role, actual in roles.items() if actual != role}
+    if not ren:
+        return finfo
+    # a canonical name must not already be used for something else
+    used = {n.id for n in ast.walk(finfo.node) if isinstance(n, ast.Name)}
+    clash = [role for actual, role in ren.items() if role in used and role not in ren]
+    if clash:
+        raise AnalysisError("%s: cannot canonicalise variable names (%s already used for something else)" % (finfo.qualname, clash))
+    node = copy.deepcopy(finfo.node)
+    for n in ast.walk(node):
+        if isinstance(n, ast.Name) and n.id in ren:
+            n.id = ren[n.id]
+    return FuncInfo(finfo.file, finfo.qualname, node, finfo.cls_node, finfo.module)
+
+
+ENGINE_ROLES = ("content", "obj", "cls", "classes", "found_end", "had_match", "table_name", "start_name", "end_name",
+                "endcls_all", "comments", "start_idx")
+
+
 class Ctx:
     """Shared, expensive-to-build context."""
 
@@ -47,9 +176,14 @@ class Ctx:
         self.cg = CallGraph(m)
         self.signals = signal_classes(m)
         self.mr = MayRaise(m, self.cg, class_call=self.signals)
-        self.engine = m.method(m.key("BlockBase", UTILS), "match")
-        if self.engine is None:
+        raw = m.method(m.key("BlockBase", UTILS), "match")
+        if raw is None:
             raise AnalysisError("anchor vanished: BlockBase.match")
+        self.engine_raw = raw
+        self.engine = canonical(raw, need=ENGINE_ROLES)
+        # the call graph keys class ownership by FuncInfo identity
+        if self.engine is not raw:
+            self.cg.func_class[id(self.engine)] = self.cg.func_class.get(id(raw))
         self.base = m.key("Base", UTILS)
         self.scoping = m.key("ScopingRegionMixin", UTILS)
         di = m.snap["di"]
@@ -338,6 +472,8 @@ def ret_kind(node, st):
 def run_scope(ctx, finfo, inst, rule, label, guard="table_name", init_extra=None):
     """Scope typestate over one function (specialised for inst when given). Appends to rule."""
     m = ctx.m
+    if finfo is not ctx.engine:
+        finfo = canonical(finfo)
     client = ScopeClient(ctx, finfo, inst, guard=guard)
     env = inst_env(ctx, inst) if inst is not None else {}
     env["$scope"] = F.const("closed")
@@ -628,6 +764,8 @@ class ConsumeFlow(F.Flow):
 
 def run_consume(ctx, finfo, inst, rule, label, content="content", objvar="obj", init_extra=None):
     m = ctx.m
+    if finfo is not ctx.engine:
+        finfo = canonical(finfo)
     client = ConsumeClient(ctx, finfo, inst, content=content, objvar=objvar)
     env = inst_env(ctx, inst) if inst is not None else {}
     env["$obj"] = F.const("none")
